@@ -200,6 +200,8 @@ def fullstack(ctx) -> None:
         r = R.role(ins[-1]) if ins else Role(None, None)
         ctx.check(len(ins) == 1 and (r.mode, r.part) == (m, p), 'C12.stack', fn, f'base fold model {mode} segment is fed {_short(r)} (required {m}/{p if isinstance(p, str) else p[0] + "(" + kvar + ")"})', expands[0].node, key=f'base.{mode}')
     subs = [e for e in it.events if e.kind == 'subscribe']
+    from . import C03
+    C03.connected(ctx, fn, it, R, rule='C12.stack')
 
     def port_subs(builder_text):
         return [e for e in subs if isinstance(e.data['target'], roles.VPort) and builder_text in e.data['target'].worker.group.builder]
